@@ -85,7 +85,9 @@ func curatedCorpus() []*Program {
 		`<%= tm %>|<% let TIME_FORMAT = "2006" %><%= tm %>`, `<%= stg %>|<%= htm %>|<%= f64 * 2.0 %>|<%= 7 / 2 %>|<%= "a" + 1 + true %>`,
 		`<% contentFor("cZ") { %>[<%= label %>]<% } %><%= contentOf("cZ", {"label": s2}) %>|<%= contentOf("nosuch") { %>default<% } %>`,
 		`<% let h = {"a": 1, "a": 2, "b": n1} %><%= toJSON(h) %>|<% let a = [1, 2, 3] %><% a[1] = n2 %><%= a %>`,
-		`<% let f = fn(x) { return x * 2 } %><%= f(n1) %>|<%= f(f(1)) %>`)
+		`<% let f = fn(x) { return x * 2 } %><%= f(n1) %>|<%= f(f(1)) %>`,
+		// templates that are rejected: the wording of a syntax error is part of the result
+		`<% let fn = 1 %>`, `<% let func = 1 %>`, `<%= if (true) { %>x<% } else fn %>`, `<% for = 2 %>`, `<%= (1 + 2 %>`, `<%= return %>`, `<% let in = nil %>`)
 	out := make([]*Program, 0, len(texts))
 	for _, t := range texts {
 		out = append(out, &Program{Main: t, Partials: map[string]string{}, Sites: map[int]*Site{}, FeederSites: map[string]*Site{}, Features: map[string]int{}})
